@@ -276,7 +276,14 @@ class Rewriter:
             return None
         nm = b[ch[1][0]:ch[1][1]]
         nm = nm if ch[1][2] else b'(' + nm + b')'
-        pairs = [keys[i] + b' ' + b[c[0]:c[1]] for i, c in enumerate(ch[2:])]
+        acts = [b[c[0]:c[1]] for c in ch[2:]]
+        pairs = [keys[i] + b' ' + a for i, a in enumerate(acts)]
+        # `_` stands for every defsrc key that the map does not mention: the keys carrying one chosen action may be left to it, and
+        # the entry may be written anywhere among the others
+        if self.rng.random() < 0.5:
+            common = self.rng.choice(acts)
+            if not common.startswith(b'(') or b'chord' not in common:
+                pairs = [p for p, a in zip(pairs, acts) if a != common] + [b'_ ' + common]
         order = list(range(len(pairs)))
         self.rng.shuffle(order)
         rep = b'(deflayermap ' + nm + b' ' + b' '.join(pairs[i] for i in order) + b')'
